@@ -3,7 +3,7 @@
 # Confirms a seeded change in its scratch worktree /tmp/wt_<id> (bug applied there):
 #   1. existing lib tests pass WITH the change   2. demo fails WITH it   3. demo passes WITHOUT it
 ID=$1; HOOK=$2; FEAT=$3
-W=/tmp/wt_$ID; O=/tmp/wt_${ID}_out; T=/tmp/wt_${ID}_target
+P=${WT_PREFIX:-wt}; W=/tmp/${P}_$ID; O=/tmp/${P}_${ID}_out; T=/tmp/${P}_${ID}_target
 cd $W || exit 2
 export CARGO_NET_OFFLINE=true
 F=""; [ -n "$FEAT" ] && F="--features $FEAT"
